@@ -957,7 +957,9 @@ def check_C18(sc, v, tier, seed, replay):
     jobs = []
     for i in range(2 if tier == "quick" else 12):
         counts = {"reg": 1 + i % 2, "pdu": 1, "svc": i % 2, "rel": 1 - i % 2, "dereg": 1}
-        s2, t2 = online.make_scenario(rnd, counts, opts={"lead0": i % 2 == 0})
+        # run 0: two-digit MNC "0x", OP only; run 1: three-digit MNC "0xy" (numeric value below 100), OPc and OP both given and different
+        s2, t2 = online.make_scenario(rnd, counts, opts={"lead0": i % 2 == 0, "det": [2, 1][i % 2] + 3 * (i // 2), "mnc_len": [2, 3][i % 2],
+                                                         "use_opc": i % 2 == 1})
         jobs.append(("wire%02d" % i, s2, t2))
     runs = online.run_many(sc, emu, jobs, parallel=8)
     _online_collect(v, runs, "C18", sc)
